@@ -229,6 +229,9 @@ def histories(draw, tier):
         "cwd": draw(st.sampled_from([None, None, None, "chan", "chan", "top", "rel", "rel-dot"])),
         "keep_reader": draw(st.booleans()),
         "repeat": draw(st.sampled_from([1, 1, 1, 2, 40])),
+        # permission bits of the data files of earlier sessions while a later session records: as written / read-only
+        # archive / not readable by the recording account / no access at all (the check runs without root's override)
+        "perm": draw(st.sampled_from([None, None, None, 0o444, 0o200, 0])),
     }
     return {"cfg": cfg, "ndirs": ndirs, "steps": steps, "env": env}
 
@@ -261,7 +264,7 @@ def directed_cases(tier):
         # a later session starts before the recorded data and runs into it: refused (also when repeated), then continues in a
         # free period - in each environment that must not matter: long channel paths, current directory inside the channel,
         # relative path spellings, finalized files that have become symbolic links, many repetitions with few descriptors
-        for env, link in (({"pad": 0}, False), ({"pad": 300}, False), ({"pad": 600}, False), ({"cwd": "chan"}, False), ({"cwd": "rel-dot"}, False),
+        for env, link in (({"pad": 0}, False), ({"perm": 0o444}, False), ({"perm": 0o200}, False), ({"perm": 0}, False), ({"pad": 300}, False), ({"pad": 600}, False), ({"cwd": "chan"}, False), ({"cwd": "rel-dot"}, False),
                           ({"cwd": "top", "keep_reader": True}, False), ({"repeat": 40, "keep_reader": True}, False), ({"pad": 150}, True)):
             steps = [{"s": "open", "dir": 0, "start": b + 1000, "salt": 4001, "uuid": "sess81", "mode": "first"},
                      {"s": "write", "op": {"op": "w", "idx": 0, "len": 150, "cid": 0}, "expect": "ok"}, {"s": "close"}, {"s": "read"}]
@@ -462,11 +465,31 @@ def run_case(case, keep=None, on_tree=None):
         cfg = None
         hashes = {}
         last_written = None
+        from vlib import unpriv
+        perm = env.get("perm")
+        if perm is not None and not unpriv.ENFORCED:
+            res.cls("permissions-not-enforced")
+            perm = None
+        elif perm is not None:
+            res.cls("earlier-files-mode-%03o" % perm)
+
+        def protect(mode):
+            for t in tops:
+                for dp_, _dn, fns_ in os.walk(t):
+                    for fn_ in fns_:
+                        if fn_.startswith("rf@") and fn_.endswith(".h5"):
+                            try:
+                                os.chmod(os.path.join(dp_, fn_), mode)
+                            except OSError:
+                                pass
+
         try:
           try:
               for si, st_ in enumerate(case["steps"]):
                   res.evaluations += 1
                   kind = st_["s"]
+                  if perm is not None and kind in ("open", "write", "close"):
+                      protect(perm)
                   if kind == "open":
                       cfg = dict(cfg0, start=st_["start"], salt=st_["salt"], uuid=st_["uuid"])
                       try:
@@ -598,6 +621,8 @@ def run_case(case, keep=None, on_tree=None):
                       _read_check(cfg0, tops, definite, maybe, file_owner_windows, fail, si, open_win, spell=spell, kept=kept,
                                   away=base0 if (cwd_mode in ("rel", "rel-dot") and w is None) else None)
                   # finalized files never change
+                  if perm is not None:
+                      protect(0o644)
                   now = final_hashes(tops)
                   for p, h in hashes.items():
                       if p not in now:
@@ -609,6 +634,8 @@ def run_case(case, keep=None, on_tree=None):
                       raise _Stop()
           except _Stop:
             # close the session, then look once more at what the earlier sessions had published
+            if perm is not None:
+                protect(0o644)
             if w is not None:
                 with rfharness.quiet_fds():
                     try:
@@ -626,6 +653,8 @@ def run_case(case, keep=None, on_tree=None):
           if on_tree is not None and w is None:
             on_tree(tops, cfg0, fail)
         finally:
+            if perm is not None:
+                protect(0o644)
             if w is not None:
                 with rfharness.quiet_fds():
                     try:
